@@ -8,7 +8,9 @@ Decided:
          route's methods and continues without executing; trying a later route after execute() requires an
          HTTPException result with is_breaking false *and* add_exception(ret); the method test dominates
          slash handling and execute;
-  R06.c  sentinel priority: last recorded exception, else 405 built from allowed_methods, else 404;
+  R06.c  sentinel priority: last recorded exception, else 405 built from allowed_methods, else 404; recording order:
+         add_exception puts its argument behind the last element on every path that returns and does nothing else to
+         the list, and nobody else writes a dispatch state's list (so [-1] is the most recent error);
   R06.d  method normalisation: Route upper-cases and validates methods and adds HEAD for GET;
          match_method upper-cases the request method and admits everything when methods is falsy;
          update_methods unions;
@@ -244,7 +246,7 @@ def _loop_rules(rep, repo, app, dv, cfg, f):
     ok = dv.method_ok_conds(cs) and dv.matched_conds(cs)
     rep.check('R06.b', fkey(f, 'execute guarded'), ok, 'a route is executed only if its pattern matched and its methods admit the request' if ok else
               'route.execute is reachable without a successful path and method test: %s' % '; '.join(cond_texts(cs)), app, dv.exec_st)
-    br_ifs = [s for s in stmts_of(f.node) if isinstance(s, ast.If) and norm(s.test) == '%s.is_branch' % dv.route_var]
+    br_ifs = [s for s in stmts_of(f.node) if isinstance(s, ast.If) and norm(strip_not(s.test)[0]) == '%s.is_branch' % dv.route_var]
     ok = bool(br_ifs) and all(dv.method_ok_conds(dv.conds(s)) for s in br_ifs)
     rep.check('R06.b', fkey(f, 'method test before slash handling'), ok, 'slash handling happens only for admitted methods' if ok else
               'slash handling is reachable before/without the method test', app, br_ifs[0] if br_ifs else dv.loop)
@@ -263,10 +265,24 @@ def _sentinel_rules(rep, repo, app, route):
     if not ds:
         raise AnalysisError('handle_sentinel_condition: dispatch state parameter not found')
     ds = ds[0]
-    is_exc = lambda t: norm(t) == '%s.exceptions' % ds
-    is_am = lambda t: norm(t) == '%s.allowed_methods' % ds
+    # other names of the dispatch state: single-definition locals bound to the parameter (``state = _dispatch_state``)
+    from ..astutil import assigned_value
+    ds_names = {ds}
+    for n_ in set(x.id for x in walk_body(hs.node) if isinstance(x, ast.Name) and isinstance(x.ctx, ast.Store)):
+        av = assigned_value(hs.node, n_)
+        if len(av) == 1 and isinstance(av[0][0], ast.Assign) and av[0][2] is None and isinstance(av[0][1], ast.Name) and av[0][1].id == ds and \
+                n_ not in hs.params():
+            ds_names.add(n_)
+
+    def res(e):
+        """``e`` with single-definition locals followed and the dispatch state called by its parameter name"""
+        e = resolve_local(hs.node, e)
+        if isinstance(e, ast.Attribute) and isinstance(e.value, ast.Name) and e.value.id in ds_names and e.value.id != ds:
+            e = ast.copy_location(ast.Attribute(value=ast.copy_location(ast.Name(id=ds, ctx=ast.Load()), e.value), attr=e.attr, ctx=ast.Load()), e)
+        return e
+    is_exc = lambda t: norm(res(t)) == '%s.exceptions' % ds
+    is_am = lambda t: norm(res(t)) == '%s.allowed_methods' % ds
     kinds = {}
-    res = lambda e: resolve_local(hs.node, e)
     for r in returns_of(hs):
         v = r.value
         cs = conds(hs, r)
@@ -295,9 +311,7 @@ def _sentinel_rules(rep, repo, app, route):
               'NullRoute is no longer a catch-all bound to handle_sentinel_condition', route, nri.node)
     # DispatchState bookkeeping
     dsc = app.cls('DispatchState')
-    ae = dsc.methods['add_exception']
-    ok = any(isinstance(c, ast.Call) and norm(c.func) == 'self.exceptions.append' and norm(c.args[0]) == ae.params()[1] for c in walk_body(ae.node))
-    rep.check('R06.c', fkey(ae), ok, 'add_exception appends (so [-1] is the most recent)' if ok else 'add_exception does not append', app, ae.node)
+    check_recording_order(rep, 'R06.c', repo, app, dsc)
     um = dsc.methods['update_methods']
     ok = any(isinstance(c, ast.Call) and norm(c.func) == 'self.allowed_methods.update' for c in walk_body(um.node))
     rep.check('R06.d', fkey(um), ok, 'update_methods unions into allowed_methods' if ok else 'update_methods does not union', app, um.node)
@@ -314,6 +328,86 @@ def _sentinel_rules(rep, repo, app, route):
     ok = asg.get('self.exceptions') == '[]' and asg.get('self.allowed_methods') == 'set()'
     rep.check('R06.c', fkey(dsi), ok, 'every request starts with an empty dispatch state' if ok else
               'DispatchState does not start empty: %s' % asg, app, dsi.node)
+
+
+def _list_target(fnode, e):
+    """the expression whose object a store / mutating call on ``e`` changes: subscripts stripped, single-definition
+    locals followed (``parked = self.exceptions; parked[0] = x`` changes self.exceptions)"""
+    while isinstance(e, ast.Subscript):
+        e = e.value
+    return resolve_local(fnode, e)
+
+
+def _records_at_end(fnode, st, field, prm):
+    """statement ``st`` puts ``prm`` behind the last element of self.<field>: append / extend or += by a one-element
+    display / insert at len(..) / re-binding to <old list> + [prm]"""
+    recv = lambda e: norm(_list_target(fnode, e)) == 'self.' + field
+    one = lambda e: isinstance(e, (ast.List, ast.Tuple)) and len(e.elts) == 1 and norm(e.elts[0]) == prm
+    if isinstance(st, ast.Expr) and isinstance(st.value, ast.Call) and isinstance(st.value.func, ast.Attribute) and \
+            not st.value.keywords and not isinstance(st.value.func.value, ast.Subscript) and recv(st.value.func.value):
+        c = st.value
+        if c.func.attr == 'append':
+            return len(c.args) == 1 and norm(c.args[0]) == prm
+        if c.func.attr == 'extend':
+            return len(c.args) == 1 and one(c.args[0])
+        if c.func.attr == 'insert':
+            return len(c.args) == 2 and norm(c.args[1]) == prm and isinstance(c.args[0], ast.Call) and call_name(c.args[0]) == 'len' and \
+                len(c.args[0].args) == 1 and not c.args[0].keywords and recv(c.args[0].args[0])
+        return False
+    if isinstance(st, ast.AugAssign) and isinstance(st.op, ast.Add) and not isinstance(st.target, ast.Subscript) and recv(st.target):
+        return one(st.value)
+    if isinstance(st, ast.Assign) and len(st.targets) == 1 and norm(st.targets[0]) == 'self.' + field and \
+            isinstance(st.value, ast.BinOp) and isinstance(st.value.op, ast.Add):
+        return not isinstance(st.value.left, ast.Subscript) and recv(st.value.left) and one(st.value.right)
+    return False
+
+
+def check_recording_order(rep, rule, repo, app, dsc, field='exceptions', recorder='add_exception'):
+    """The sentinel answers with ``exceptions[-1]``; that is the *most recent* non-breaking error only if recording is
+    an unconditional append: every call of add_exception puts its argument behind the last element on every path that
+    returns, the method does nothing else to the list, and nobody else in the package writes a dispatch state's list
+    (apart from the fresh empty list of __init__)."""
+    ae = dsc.methods.get(recorder)
+    if ae is None or len(ae.params()) < 2:
+        raise AnalysisError('DispatchState.%s(self, exception) not found' % recorder)
+    prm = ae.params()[1]
+    acfg = cfg_of(ae)
+    rebound = any(isinstance(n, ast.Name) and n.id == prm and isinstance(n.ctx, (ast.Store, ast.Del)) for n in walk_body(ae.node))
+    recs = [s for s in stmts_of(ae.node) if _records_at_end(ae.node, s, field, prm)]
+    ok = bool(recs) and not rebound
+    rep.check(rule, fkey(ae), ok, 'add_exception appends (so [-1] is the most recent)' if ok else 'add_exception does not append', app, ae.node)
+    if ok:
+        always = acfg.must_pass(acfg.nodes_of_all(recs), acfg.entry, acfg.exit, normal_only=True)
+        rep.check(rule, fkey(ae, 'every call records'), always,
+                  'the append is unconditional: every recorded error becomes the last element' if always else
+                  '%s can return without appending its argument (the append is conditional): an error that is not appended is not the '
+                  'last element, so exceptions[-1] -- what the null route answers with -- is an older error, not the most recent one'
+                  % recorder, app, recs[0])
+        others = [e for e in effects.effects_in(ae.node)
+                  if norm(_list_target(ae.node, e.target)) == 'self.' + field and not any(e.node is s or e.node is getattr(s, 'value', None) for s in recs)]
+        rep.check(rule, fkey(ae, 'nothing else'), not others,
+                  '%s does nothing else to the list' % recorder if not others else
+                  '%s also changes the recorded errors by %s: the last element is no longer the most recently recorded error'
+                  % (recorder, '; '.join(short(e.node) for e in others)), app, others[0].node if others else ae.node)
+    # who else writes the list of a dispatch state
+    fam = [dsc] + repo.subclasses(dsc, [app])
+    for m in repo.all_internal_modules():
+        for fi in m.functions.values():
+            own = fi.cls is not None and any(fi.cls is c for c in fam)
+            for e in effects.effects_in(fi.node):
+                t = _list_target(fi.node, e.target)
+                if not (isinstance(t, ast.Attribute) and t.attr == field):
+                    continue
+                if norm(t.value) == 'self' and not own:
+                    continue         # another class's attribute of the same name
+                if own and fi.name == recorder:
+                    continue         # judged above
+                ok = own and fi.name == '__init__' and e.kind == 'store' and isinstance(e.node, ast.Assign) and e.target is e.node.targets[0] and \
+                    ((isinstance(e.node.value, ast.List) and not e.node.value.elts) or norm(e.node.value) == 'list()')
+                rep.check(rule, 'recorded errors writer::%s::%s' % (fi.key, norm(e.node)[:70]), ok,
+                          'every dispatch state starts with its own empty list' if ok else
+                          '%s writes the recorded-errors list of a dispatch state (%s): the order of recording is no longer what exceptions[-1] reads'
+                          % (fi.key, short(e.node)), m, e.node)
 
 
 def _method_rules(rep, repo, app, route):
